@@ -7,6 +7,7 @@ import AC.OptProof
 import AC.Gen.Ensemble
 import AC.C01Total
 import AC.DictSumTie
+import AC.BinaryTie
 import AC.DecompTie
 /-! # C01 — every search algorithm returns a genuine addition chain ending at the target
 
@@ -248,5 +249,13 @@ theorem C01_src_dictsum_ends_at_sumInt (S : List P.Bits.Term) (b : P.Bits.Term)
 /-- non-vacuity: the sum 1·2^0 + 3·2^2 + 1·2^5 meets the hypothesis -/
 example : P.DictSum.Desc (⟨1, 5⟩ : P.Bits.Term).e (([⟨1, 0⟩, ⟨3, 2⟩] : List P.Bits.Term).map pairOf).reverse := by
   simp [P.DictSum.Desc, pairOf]
+
+/-- **source-level**: `binary.RightToLeft.FindChain` as TRANSLATED from the current binary.go (the nil-able
+    pointer `x` as an `Option`, the loop on a fuel counter with its condition re-checked): for every
+    `n ≥ 1` it does not panic, does not run out of fuel, returns a nil error and a valid chain ending at `n` -/
+theorem C01_src_binary (n : Nat) (hn : 1 ≤ n) :
+    ∃ c, AC.Gen.Program.binaryRightToLeftFindChain (n : Int) = some (c, AC.GoPrim.goNil) ∧
+      IsChain c ∧ c.getLast? = some (n : Int) :=
+  ⟨rtl n, AC.BinaryTie.rtl_tie n hn, C01_binary n hn⟩
 
 end AC.Props.C01
